@@ -40,7 +40,7 @@ pred wfShard(s) = s.runtime != nil && s.shard != nil
 
 // data-structure invariant over every shardInfo of the cycle
 pred wfAll() = forall o : *shardInfo :: (o.gLive && allocated(o)) ==> (o != nil && wfShard(o))
-pred live(shards) = forall s in shards :: s != nil && s.gLive
+pred live(shards) = forall s in shards :: s != nil && s.gLive && allocated(s)
 
 pred fitsShard(c, s, head, proc) =
     (c.option.MaxHeadSeries == 0 || s.runtime.HeadSeries + head < c.option.MaxHeadSeries)
@@ -119,51 +119,64 @@ pred allChangeAble(shards) = forall s in shards :: s.changeAble
 pred monotoneAll() = forall o : *shardInfo :: (old(o.gLive) && old(allocated(o))) ==> (forall h in old(keys(o.scraping)) :: h in o.scraping)
 
 // in-sync shards only plan discovered targets (crash-freedom of the status bookkeeping at the end of the cycle, C01)
-pred plannedActive() = forall o : *shardInfo :: (o.gLive && allocated(o) && o.changeAble) ==> (forall h in o.scraping :: h in gActive)
+pred plannedActive(shards) = forall s in shards :: s.changeAble ==> (forall h in s.scraping :: h in gActive)
+
+// maps of the planned-set type that do not belong to a shardInfo (status maps) are never written by a planning step
+pred unownedMapsKept() = forall m : mapof(shardInfo.scraping) :: (old(allocated(m)) && gScrOwner[m] == nil) ==> samemap(m)
 
 // shards outside the slice handed to a step keep their planned set (their map is not written)
 pred othersKeepMap(shards) = forall o : *shardInfo :: (old(o.gLive) && old(allocated(o)) && !(o in shards)) ==> samemap(o.scraping)
 
 contract Coordinator.alleviateShardHeadSeries
-  requires wfOpt(c) && wfAll() && plannedActive() && live(changeAbleShards) && allChangeAble(changeAbleShards) && s in changeAbleShards
-  ensures wfAll() && plannedActive()
+  requires wfOpt(c) && wfAll() && plannedActive(changeAbleShards) && live(changeAbleShards) && allChangeAble(changeAbleShards) && s in changeAbleShards
+  ensures wfAll() && plannedActive(changeAbleShards)
+  ensures unownedMapsKept()
   ensures[C01] monotoneAll()
   modifies shard.RuntimeInfo.HeadSeries, shard.RuntimeInfo.ProcessSeries, target.ScrapeStatus.TargetState, target.ScrapeStatus.* at {},
            mapof(shardInfo.scraping), shardInfo.gHead, shardInfo.gProc
   loop 1 invariant wfAll()
-  loop 1 invariant plannedActive()
+  loop 1 invariant unownedMapsKept()
+  loop 1 invariant plannedActive(changeAbleShards)
   loop 1 invariant[C01] monotoneAll()
   loop 2 invariant wfAll()
-  loop 2 invariant plannedActive()
+  loop 2 invariant unownedMapsKept()
+  loop 2 invariant plannedActive(changeAbleShards)
   loop 2 invariant[C01] monotoneAll()
 
 contract Coordinator.alleviateShardProcessSeries
-  requires wfOpt(c) && wfAll() && plannedActive() && live(changeAbleShards) && allChangeAble(changeAbleShards) && s in changeAbleShards
-  ensures wfAll() && plannedActive()
+  requires wfOpt(c) && wfAll() && plannedActive(changeAbleShards) && live(changeAbleShards) && allChangeAble(changeAbleShards) && s in changeAbleShards
+  ensures wfAll() && plannedActive(changeAbleShards)
+  ensures unownedMapsKept()
   ensures[C01] monotoneAll()
   modifies shard.RuntimeInfo.HeadSeries, shard.RuntimeInfo.ProcessSeries, target.ScrapeStatus.TargetState, target.ScrapeStatus.* at {},
            mapof(shardInfo.scraping), shardInfo.gHead, shardInfo.gProc
   loop 1 invariant wfAll()
-  loop 1 invariant plannedActive()
+  loop 1 invariant unownedMapsKept()
+  loop 1 invariant plannedActive(changeAbleShards)
   loop 1 invariant[C01] monotoneAll()
   loop 2 invariant wfAll()
-  loop 2 invariant plannedActive()
+  loop 2 invariant unownedMapsKept()
+  loop 2 invariant plannedActive(changeAbleShards)
   loop 2 invariant[C01] monotoneAll()
 
 contract Coordinator.alleviateShards
-  requires wfOpt(c) && wfAll() && plannedActive() && live(changeAbleShards) && allChangeAble(changeAbleShards)
-  ensures wfAll() && plannedActive()
+  requires wfOpt(c) && wfAll() && plannedActive(changeAbleShards) && live(changeAbleShards) && allChangeAble(changeAbleShards)
+  ensures wfAll() && plannedActive(changeAbleShards)
+  ensures unownedMapsKept()
   ensures[C01] monotoneAll()
   modifies shard.RuntimeInfo.HeadSeries, shard.RuntimeInfo.ProcessSeries, target.ScrapeStatus.TargetState, target.ScrapeStatus.* at {},
            mapof(shardInfo.scraping), shardInfo.gHead, shardInfo.gProc
   loop 1 invariant wfAll()
-  loop 1 invariant plannedActive()
+  loop 1 invariant unownedMapsKept()
+  loop 1 invariant plannedActive(changeAbleShards)
   loop 1 invariant[C01] monotoneAll()
   loop 2 invariant wfAll()
-  loop 2 invariant plannedActive()
+  loop 2 invariant unownedMapsKept()
+  loop 2 invariant plannedActive(changeAbleShards)
   loop 2 invariant[C01] monotoneAll()
   loop 3 invariant wfAll()
-  loop 3 invariant plannedActive()
+  loop 3 invariant unownedMapsKept()
+  loop 3 invariant plannedActive(changeAbleShards)
   loop 3 invariant[C01] monotoneAll()
 
 pred wfActive(active) = forall h, t in active :: t != nil && t.ShardTarget != nil
@@ -182,8 +195,9 @@ on insert shardInfo.scraping(s, k, v) in Coordinator.assignNoScrapingTargets
 
 contract Coordinator.assignNoScrapingTargets
   requires wfOpt(c) && wfAll() && live(shards) && wfActive(active) && wfGlobal(globalScrapeStatus)
-  requires gScrOwner[globalScrapeStatus] == nil && plannedActive() && gActive == keys(active)
-  ensures wfAll() && plannedActive()
+  requires gScrOwner[globalScrapeStatus] == nil && plannedActive(shards) && gActive == keys(active)
+  ensures wfAll() && plannedActive(shards)
+  ensures unownedMapsKept()
   ensures[C01] monotoneAll()
   ensures result.headSpace >= 0 && result.processSpace >= 0
   modifies shard.RuntimeInfo.HeadSeries, shard.RuntimeInfo.ProcessSeries,
@@ -193,7 +207,8 @@ contract Coordinator.assignNoScrapingTargets
   loop 2 invariant forall j in 0..idx1 :: forall h in shards[j].scraping :: scraping[h]
   loop 2 invariant forall h in visited2 :: scraping[h]
   loop 2 invariant fresh(scraping)
-  loop 3 invariant wfAll() && wfGlobal(globalScrapeStatus) && plannedActive()
+  loop 3 invariant wfAll() && wfGlobal(globalScrapeStatus) && plannedActive(shards)
+  loop 3 invariant unownedMapsKept()
   loop 3 invariant[C01] monotoneAll()
   loop 3 invariant needSp.headSpace >= 0 && needSp.processSpace >= 0
 
@@ -220,22 +235,25 @@ contract Coordinator.shardCanBeIdle
   loop 3 invariant fresh(availableSpaces)
 
 contract Coordinator.shardBecomeIdle
-  requires wfOpt(c) && wfAll() && plannedActive() && live(shards) && src != nil && src.gLive && src.changeAble
-  ensures wfAll() && plannedActive()
+  requires wfOpt(c) && wfAll() && plannedActive(shards) && live(shards) && src != nil && src.gLive && src.changeAble && (forall h in src.scraping :: h in gActive)
+  ensures wfAll() && plannedActive(shards)
+  ensures unownedMapsKept()
   ensures[C01] monotoneAll()
   ensures othersKeepMap(shards)
   modifies shard.RuntimeInfo.HeadSeries, shard.RuntimeInfo.ProcessSeries, target.ScrapeStatus.TargetState, target.ScrapeStatus.* at {},
            mapof(shardInfo.scraping), shardInfo.gHead, shardInfo.gProc
   loop 1 invariant wfAll()
-  loop 1 invariant plannedActive()
+  loop 1 invariant unownedMapsKept()
+  loop 1 invariant plannedActive(shards)
   loop 1 invariant[C01] monotoneAll()
   loop 1 invariant othersKeepMap(shards)
 
 contract Coordinator.tryScaleDown
-  requires wfOpt(c) && wfAll() && plannedActive() && live(shards) && distinctShards(shards)
+  requires wfOpt(c) && wfAll() && plannedActive(shards) && live(shards) && distinctShards(shards)
   ensures[C07] @scale_in_range 0 <= result && result <= len(shards)
   ensures[C07] @only_removable_shards_dropped forall j in result..len(shards) :: removable(c, shards[j])
-  ensures wfAll() && plannedActive()
+  ensures wfAll() && plannedActive(shards)
+  ensures unownedMapsKept()
   ensures[C01] monotoneAll()
   ensures gClock >= old(gClock)
   modifies shard.RuntimeInfo.HeadSeries, shard.RuntimeInfo.ProcessSeries, target.ScrapeStatus.TargetState, target.ScrapeStatus.* at {},
@@ -245,7 +263,8 @@ contract Coordinator.tryScaleDown
   loop 2 invariant 0 - 1 <= i && i < scale && scale <= len(shards) && 0 <= scale && gClock >= old(gClock)
   loop 2 invariant[C07] @tail_removable forall j in scale..len(shards) :: removable(c, shards[j])
   loop 2 invariant wfAll()
-  loop 2 invariant plannedActive()
+  loop 2 invariant unownedMapsKept()
+  loop 2 invariant plannedActive(shards)
   loop 2 invariant[C01] monotoneAll()
 
 // ---------- garbage collection of planned sets (C01, C05) ----------
@@ -269,17 +288,20 @@ contract Coordinator.gcTargets
   ensures[C01] @coverage covered(changeAbleShards, active)
   ensures[C01] @only_removes onlyRemoves(changeAbleShards)
   ensures wfAll()
+  ensures unownedMapsKept()
   ensures othersKeepMap(changeAbleShards)
   ensures[C01] @only_discovered_stay forall s in changeAbleShards :: forall h in s.scraping :: h in active
   modifies mapof(shardInfo.scraping)
   loop 1 invariant[C01] @coverage covered(changeAbleShards, active)
   loop 1 invariant[C01] @only_removes onlyRemoves(changeAbleShards)
   loop 1 invariant wfAll()
+  loop 1 invariant unownedMapsKept()
   loop 1 invariant othersKeepMap(changeAbleShards)
   loop 1 invariant[C01] @only_discovered_stay forall j in 0..idx1 :: forall h in changeAbleShards[j].scraping :: h in active
   loop 2 invariant[C01] @coverage covered(changeAbleShards, active)
   loop 2 invariant[C01] @only_removes onlyRemoves(changeAbleShards)
   loop 2 invariant wfAll()
+  loop 2 invariant unownedMapsKept()
   loop 2 invariant othersKeepMap(changeAbleShards)
   loop 2 invariant[C01] @only_discovered_stay forall j in 0..idx1 :: forall h in changeAbleShards[j].scraping :: h in active
   loop 2 invariant[C01] @only_discovered_stay_cur forall h in visited2 :: (h in s.scraping ==> h in active)
@@ -287,6 +309,7 @@ contract Coordinator.gcTargets
   loop 3 invariant[C01] @coverage covered(changeAbleShards, active)
   loop 3 invariant[C01] @only_removes onlyRemoves(changeAbleShards)
   loop 3 invariant wfAll()
+  loop 3 invariant unownedMapsKept()
   loop 3 invariant othersKeepMap(changeAbleShards)
 
 // ---------- collecting the reports (C08) ----------
@@ -312,13 +335,14 @@ contract Coordinator.getOneShardInfo
   ensures[C08] @in_sync_only_with_matching_hash result.changeAble ==> s.Ready && result.runtime.ConfigHash == c.gCfg.ConfigHash
   ensures[C08] @config_pushed_at_most_once s.gPostCfg >= old(s.gPostCfg) && s.gPostCfg <= old(s.gPostCfg) + 1
   ensures s.gList == old(s.gList)
+  ensures forall m : int :: old(allocated(m)) ==> gScrOwner[m] == old(gScrOwner[m])
   modifies shardInfo.* at {}, shard.RuntimeInfo.* at {}, target.ScrapeStatus.* at {}, mapof(shardInfo.scraping) at {}, mapof(shardInfo.newTargets) at {},
            shard.Shard.scraping at {s}, shard.Shard.gGets at {s}, shard.Shard.gPostCfg at {s}, shard.Shard.gInfo at {s}, shard.UpdateConfigRequest.* at {}, gScrOwner
   atreturn do result.gLive = true
            do result.gHead = result.runtime.HeadSeries
            do result.gProc = result.runtime.ProcessSeries
            do result.runtime.gOwner = result
-           do gScrOwner = seqset(gScrOwner, result.scraping, result)
+           do gScrOwner = ite(result.scraping != nil, seqset(gScrOwner, result.scraping, result), gScrOwner)
            do result.gReported = keys(result.scraping)
            do s.gInfo = result
 
@@ -329,6 +353,7 @@ contract Coordinator.getShardInfos
   ensures len(result) == len(shards) && fresh(result) && live(result) && distinctShards(result)
   ensures wfAll()
   ensures forall j in 0..len(shards) :: result[j].shard == shards[j]
+  ensures forall m : int :: old(allocated(m)) ==> gScrOwner[m] == old(gScrOwner[m])
   ensures[C01] reportedIsPlanned(result)
   ensures[C08] @unready_shard_gets_no_request forall j in 0..len(shards) :: !shards[j].Ready ==> !result[j].changeAble && sameRequests(shards[j])
   ensures[C08] @no_target_or_extra_config_update forall j in 0..len(shards) :: shards[j].gPostTargets == old(shards[j].gPostTargets) && shards[j].gPostExtra == old(shards[j].gPostExtra)
@@ -337,6 +362,7 @@ contract Coordinator.getShardInfos
            shard.Shard.scraping, shard.Shard.gGets, shard.Shard.gPostCfg, shard.Shard.gInfo, shard.UpdateConfigRequest.* at {}, gScrOwner
   loop 1 invariant wfAll()
   loop 1 invariant len(all) == len(shards) && fresh(all)
+  loop 1 invariant forall m : int :: old(allocated(m)) ==> gScrOwner[m] == old(gScrOwner[m])
   loop 1 invariant forall j in 0..idx1 :: all[j] != nil && all[j].gLive && allocated(all[j]) && all[j].shard == shards[j]
   loop 1 invariant forall a in 0..idx1 :: forall b in 0..idx1 :: a != b ==> all[a] != all[b]
   loop 1 invariant forall j in idx1..len(shards) :: shards[j].gInfo == nil
@@ -383,9 +409,62 @@ contract Coordinator.updateScrapeStatusShards
 
 pred allEntriesNonNil(g) = forall h, st in g :: st != nil
 
+pred statusesStayWf() = forall st : *target.ScrapeStatus :: (old(allocated(st)) && old(st.Series) >= 0 && old(st.TotalSeries) >= 0) ==> (st.Series >= 0 && st.TotalSeries >= 0)
+
 contract mergeScrapeStatus
-  requires a != nil && gScrOwner[a] == nil && allEntriesNonNil(a) && allEntriesNonNil(b)
-  ensures result == a && allEntriesNonNil(a)
+  requires a != nil && gScrOwner[a] == nil && allEntriesWf(a) && allEntriesWf(b)
+  ensures result == a && allEntriesWf(a)
+  ensures statusesStayWf()
+  ensures forall m : mapof(shardInfo.scraping) :: (old(allocated(m)) && m != a) ==> samemap(m)
   modifies target.ScrapeStatus.*, mapof(shardInfo.scraping) at {a}
-  loop 1 invariant allEntriesNonNil(a) && allEntriesNonNil(b)
+  loop 1 invariant allEntriesWf(a) && allEntriesWf(b)
+  loop 1 invariant statusesStayWf()
+
+// ---------- the cycle ----------
+on after Coordinator.getActive()
+   do gActive = keys(result)
+
+// C07, on every scale request of the cycle (both call sites, and any a change adds)
+on call shard.Manager.ChangeScale(x)
+   assert[C07] @within_min_max c.option.MinShard <= c.option.MaxShard ==> (c.option.MinShard <= x && x <= c.option.MaxShard)
+   assert[C07] @only_removable_shards_dropped len(shardsInfo) <= c.option.MaxShard ==> (forall j in x..len(shardsInfo) :: removable(c, shardsInfo[j]))
+   assert[C07] @not_below_current_without_idle_time (len(shardsInfo) <= c.option.MaxShard && c.option.MaxIdleTime == 0) ==> x >= len(shardsInfo)
+
+// "...or when more space is needed in that cycle": the final request, when the needed space is not zero
+on call shard.Manager.ChangeScale(x) when gSpaceKnown
+   assert[C07] @not_below_current_when_space_needed (len(shardsInfo) <= c.option.MaxShard && (gNeedHead != 0 || gNeedProc != 0)) ==> x >= len(shardsInfo)
+
+ghost global gSpaceKnown bool
+ghost global gNeedHead int
+ghost global gNeedProc int
+on call Coordinator.getShardInfos(c, shards)
+   do gSpaceKnown = false
+on after space.add(s, src) in Coordinator.runOnce
+   do gSpaceKnown = true
+   do gNeedHead = s.headSpace
+   do gNeedProc = s.processSpace
+
+// proof steps for the status bookkeeping at the end of an iteration (each is checked, then used)
+on call Coordinator.updateScrapeStatusShards(c, shards, status) in Coordinator.runOnce
+   assert @lemma_active_keys gActive == keys(active)
+   assert @lemma_status_has_active forall h in active :: h in status
+   assert @lemma_planned_active plannedActive(shards)
+   assert @lemma_live live(shards)
+
+on call Coordinator.gcTargets(c, shards, act) in Coordinator.runOnce
+   assert @lemma_status_unowned gScrOwner[lastGlobalScrapeStatus] == nil
+   assert @lemma_status_wf0 allEntriesWf(lastGlobalScrapeStatus)
+on call Coordinator.alleviateShards(c, shards) in Coordinator.runOnce
+   assert @lemma_status_wf1 allEntriesWf(lastGlobalScrapeStatus)
+on call Coordinator.assignNoScrapingTargets(c, shards, act, g) in Coordinator.runOnce
+   assert @lemma_status_wf2 allEntriesWf(g)
+
+contract Coordinator.runOnce
+  requires wfCoord(c) && wfAll()
+  modifies shardInfo.*, shard.RuntimeInfo.*, target.ScrapeStatus.*, mapof(shardInfo.scraping), mapof(shardInfo.newTargets), elems(shardInfo.newTargets) at {},
+           target.Target.* at {}, shard.Shard.*, shard.UpdateConfigRequest.* at {}, shard.UpdateTargetsRequest.* at {},
+           tkestack.io/kvass/pkg/scrape.StatisticsSeriesResult.* at {}, mapof(tkestack.io/kvass/pkg/scrape.StatisticsSeriesResult.MetricsTotal) at {},
+           Coordinator.lastGlobalScrapeStatus at {c}, gScrOwner, gClock, gActive, gSpaceKnown, gNeedHead, gNeedProc
+  loop 1 invariant wfAll()
+  loop 1 invariant newLastGlobalScrapeStatus != nil && fresh(newLastGlobalScrapeStatus) && gScrOwner[newLastGlobalScrapeStatus] == nil && allEntriesWf(newLastGlobalScrapeStatus)
 @*/
